@@ -7,7 +7,9 @@ registration of the parameter names when a `{` follows) on prototype-style param
 
     name ( specifiers declarator {, specifiers declarator} )
 
-every parameter named, its declarator any `DeclSkel.D` (grouping parentheses included).
+a parameter is named - its declarator any `DeclSkel.D` (grouping parentheses included) - or unnamed
+with an abstract declarator made of stars and qualifiers (`ParamU`; the parser looks ahead for a name,
+finds none, resets and parses an abstract declarator; the result is a `Typename`).
 -/
 namespace PycModel.Params
 open PycModel PycModel.View PycModel.OperandId PycModel.FullExpr PycModel.TypeModify PycModel.DeclSkel PycModel.BuildDecl
@@ -95,28 +97,285 @@ theorem param_ok (p : Param) (hwf : WFParam p) (s : PState) (stop : Tk) (rest : 
   simp only [pParameterDeclaration, pDeclSpecs, DeclSkel.bnd, h1', requireSpec, Bool.not_true, Bool.false_and,
     Bool.false_eq_true, ↓reduceIte, DeclSkel.pur, htyne, hstart, h3, hinfo, hbd, Param.val, htn]
 
+/-! ## unnamed parameters: specifiers and an abstract pointer declarator -/
+
+theorem foldSpec_qual : ∀ (l : List Tk) (n : Nat) (sp : DeclSpec), (foldSpec n sp l).qual = sp.qual ++ TypeName.tnQuals l
+  | [], _, sp => by simp [foldSpec, TypeName.tnQuals]
+  | t :: r, n, sp => by
+    simp only [foldSpec, TypeName.tnQuals]
+    rw [foldSpec_qual r]
+    unfold addTok
+    by_cases h1 : t.1 ∈ typeQualifier
+    · simp [h1]
+    · by_cases h2 : t.1 ∈ storageClass
+      · simp [h1, h2]
+      · by_cases h3 : t.1 ∈ functionSpec
+        · simp [h1, h2, h3]
+        · simp [h1, h2, h3]
+
+/-- the spellings of the type specifiers, in source order -/
+def tyWords (l : List Tk) : List String := (l.filter isTypeTok).map (·.2)
+
+theorem typeNames_words : ∀ (l : List Tk) (n : Nat), (typeNames n l).map (·.1) = tyWords l
+  | [], _ => rfl
+  | t :: r, n => by
+    have ih := typeNames_words r (n + 1)
+    simp only [tyWords] at ih
+    by_cases h : isTypeTok t = true
+    · simp [typeNames, tyWords, h, List.filter_cons, ih]
+    · simp [typeNames, tyWords, h, List.filter_cons, ih]
+
+/-- `_build_parameter_declaration` for an unnamed parameter: the last type specifier is not a
+typedef name in scope, so the declaration stays a `Typename` -/
+theorem buildParam_abs (sp : DeclSpec) (p0 : String × Option Coord) (names : List (String × Option Coord))
+    (htype : sp.type = typeNodes (p0 :: names))
+    (hlast : names ≠ [] → ∀ x, ((p0 :: names).map (·.1)).getLast? = some x → env.ty x = false)
+    (decl : Val) (co : Option Coord) (s : PState) (toks : List Tk) (hs : SeesT env s toks) :
+    buildParameterDeclaration sp decl co s =
+      fixDeclNameType (TypeName.tnPre co sp.qual (if decl.truthy then decl else emptyTypeDecl)) sp.type s := by
+  cases names with
+  | nil =>
+    simp only [buildParameterDeclaration, htype, typeNodes, List.map_cons, List.map_nil, List.length_cons, List.length_nil,
+      DeclSkel.bnd, DeclSkel.pur]
+    rfl
+  | cons a r =>
+    obtain ⟨pl, hpl⟩ : ∃ pl, (p0 :: a :: r).getLast? = some pl := by
+      cases h : (p0 :: a :: r).getLast? with
+      | none => simp at h
+      | some pl => exact ⟨pl, rfl⟩
+    have hl1 : (typeNodes (p0 :: a :: r)).getLast? = some (identType pl.2 [pl.1]) := by
+      simp only [typeNodes, List.getLast?_map, hpl, Option.map_some]
+    have hl2 : (typeNodes (p0 :: a :: r)).getLast! = identType pl.2 [pl.1] := List.getLast!_of_getLast? hl1
+    have hx : env.ty pl.1 = false := hlast (by simp) pl.1 (by simp only [List.getLast?_map, hpl, Option.map_some])
+    have hlook : isTypeInScope pl.1 s = .ok false s := by
+      show Res.ok (isTypeInScopes s.scopes pl.1) s = _
+      rw [hs.agrees.lookup, hx]
+    have hlen : decide ((typeNodes (p0 :: a :: r)).length > 1) = true := by simp [typeNodes]
+    have hcls : (identType pl.2 [pl.1]).isCls .IdentifierType = true := rfl
+    have hltn : lastTypeNames sp s = .ok [.str pl.1] s := by
+      simp only [lastTypeNames, htype, hl1]
+      rfl
+    simp only [buildParameterDeclaration, DeclSkel.bnd, DeclSkel.pur]
+    rw [htype]
+    have e : (if (([Val.str pl.1] : List Val).length == 1) = true then isTypeInScope (strOf ([Val.str pl.1] : List Val).head!)
+        else pure false) = isTypeInScope pl.1 := rfl
+    simp only [hlen, hl2, hcls, Bool.and_self, ↓reduceIte, View.bind_apply, hltn, e, hlook, Bool.false_eq_true]
+    rfl
+
+/-- an unnamed parameter `specifiers {* qualifiers}` -/
+structure ParamU where
+  specs : List Tk
+  stars : List (List Tk)
+
+namespace ParamU
+def flat (u : ParamU) : List Tk := u.specs ++ starsFlat u.stars
+def ntoks (u : ParamU) : Nat := u.specs.length + starsNtoks u.stars
+def fuel (u : ParamU) : Nat := max (u.specs.length + 1) (starsNtoks u.stars + 8) + 3
+def ms (n : Nat) (u : ParamU) : List M := ((starPairs (n + u.specs.length) u.stars).map pairM).reverse
+/-- the `Typename` of the parameter; its coordinate is the first specifier's -/
+def val (n : Nat) (u : ParamU) : Val :=
+  match typeNames n u.specs with
+  | [] => .none
+  | p0 :: names =>
+    TypeName.tnPost (tc n) (TypeName.tnQuals u.specs)
+      (chainVal (u.ms n) (TypeName.tdAbs (.list (TypeName.tnQuals u.specs)) (identType p0.2 ((p0 :: names).map (·.1)))))
+end ParamU
+
+structure WFParamU (ty : String → Bool) (u : ParamU) : Prop where
+  specToks : SpecToks false u.specs
+  sawType : sawAfter false u.specs = true
+  quals : ∀ q ∈ u.stars, ∀ t ∈ q, t.1 ∈ typeQualifier
+  /-- with several type specifiers, the last one is not a typedef name in scope (else the parser
+  reads it as the parameter's name) -/
+  lastWord : 2 ≤ (tyWords u.specs).length → ∀ x, (tyWords u.specs).getLast? = some x → ty x = false
+
+/-- **`_parse_parameter_declaration`** on an unnamed parameter -/
+theorem paramU_ok (u : ParamU) (hwf : WFParamU env.ty u) (s : PState) (stop : Tk) (rest : List Tk) (hstop : EndsParam stop.1)
+    (hs : SeesT env s (u.flat ++ stop :: rest)) (F : Nat) (hF : u.fuel ≤ F) :
+    ∃ s', run F .parameterDeclaration s = .ok (u.val s.idx) s' ∧ SeesT env s' (stop :: rest) ∧ s'.idx = s.idx + u.ntoks := by
+  obtain ⟨G, rfl⟩ : ∃ G, F = G + 3 := ⟨F - 3, by simp only [ParamU.fuel] at hF; omega⟩
+  simp only [ParamU.fuel] at hF
+  obtain ⟨k0, v0⟩ := stop
+  have hk0 : k0 = "RPAREN" ∨ k0 = "COMMA" := by rcases hstop with h | h <;> simp only at h <;> simp [h]
+  have hs0 : SeesT env s (u.specs ++ (starsFlat u.stars ++ (k0, v0) :: rest)) := by
+    simpa [ParamU.flat, List.append_assoc] using hs
+  have hfo : FollowSpec (starsFlat u.stars ++ (k0, v0) :: rest) := by
+    intro k v r' h
+    cases hst : u.stars with
+    | nil =>
+      simp only [hst, starsFlat, List.nil_append, List.cons.injEq, Prod.mk.injEq] at h
+      rw [← h.1.1]; rcases hk0 with rfl | rfl <;> decide
+    | cons q r =>
+      simp only [hst, starsFlat, List.cons_append, List.cons.injEq, Prod.mk.injEq] at h
+      rw [← h.1.1]; decide
+  obtain ⟨s1, h1, hs1, hi1⟩ := specs_loop u.specs {} false false none s _ (G + 2) hwf.specToks hfo hs0 (by omega) (fun _ => rfl)
+  have hne := sawAfter_ne_nil hwf.sawType
+  have hsome : (if (false || !u.specs.isEmpty) = true then some (foldSpec s.idx {} u.specs) else none) =
+      some (foldSpec s.idx {} u.specs) := by
+    cases hsp' : u.specs with
+    | nil => exact absurd hsp' hne
+    | cons t r => rfl
+  have hfc : firstCoord none s.idx u.specs = tc s.idx := by
+    cases hsp' : u.specs with
+    | nil => exact absurd hsp' hne
+    | cons t r => rfl
+  rw [hsome, hwf.sawType, hfc] at h1
+  have h1' : run (G + 2) (.declSpecsLoop none false none) s = .ok (some (foldSpec s.idx {} u.specs), true, tc s.idx) s1 := h1
+  -- the specifiers
+  obtain ⟨p0, names, htn⟩ : ∃ p0 names, typeNames s.idx u.specs = p0 :: names := by
+    cases h : typeNames s.idx u.specs with
+    | nil => exact absurd h (typeNames_ne_nil _ _ false hwf.sawType rfl)
+    | cons p0 names => exact ⟨p0, names, rfl⟩
+  have htype : (foldSpec s.idx {} u.specs).type = typeNodes (p0 :: names) := by
+    rw [foldSpec_type u.specs s.idx {} false hwf.specToks, htn]; rfl
+  have hqual : (foldSpec s.idx {} u.specs).qual = TypeName.tnQuals u.specs := by
+    rw [foldSpec_qual]; rfl
+  have hwords : (p0 :: names).map (·.1) = tyWords u.specs := by rw [← htn]; exact typeNames_words _ _
+  have hlast : names ≠ [] → ∀ x, ((p0 :: names).map (·.1)).getLast? = some x → env.ty x = false := by
+    intro hn x hx
+    rw [hwords] at hx
+    refine hwf.lastWord ?_ x hx
+    rw [← hwords]
+    cases names with
+    | nil => exact absurd rfl hn
+    | cons a r => simp
+  have htyne : (foldSpec s.idx {} u.specs).type.isEmpty = false := by rw [htype]; rfl
+  have hfix := TypeName.fixTypename_ok (tc s.idx) (TypeName.tnQuals u.specs) (u.ms s.idx) p0 names
+  cases hst : u.stars with
+  | nil =>
+    have hs1' : SeesT env s1 ((k0, v0) :: rest) := by simpa [hst, starsFlat] using hs1
+    obtain ⟨s2, h2, hs2, hi2, _⟩ := peekType_spec s1 _ hs1'
+    obtain ⟨s3, h3, hs3, hi3⟩ := TypeName.abstractStars_end [] (by intro q h; cases h) s2 k0 v0 rest hk0
+      (by simpa [starsFlat] using hs2) (G + 2) (by simp [starsNtoks]; omega)
+    refine ⟨s3, ?_, hs3, by simp [ParamU.ntoks, hst, starsNtoks] at hi3 ⊢; omega⟩
+    have hstart : startsDeclarator false s1 = .ok false s2 := by
+      simp only [startsDeclarator, DeclSkel.bnd, h2, List.head?_cons, Option.map_some, DeclSkel.pur]
+      rcases hk0 with rfl | rfl <;> rfl
+    have hbp := buildParam_abs (foldSpec s.idx {} u.specs) p0 names htype hlast Val.none (tc s.idx) s3 _ hs3
+    have hms : u.ms s.idx = [] := by simp [ParamU.ms, hst, starPairs]
+    rw [hms] at hfix
+    show pParameterDeclaration (run (G + 2)) s = _
+    simp only [pParameterDeclaration, pDeclSpecs, DeclSkel.bnd, h1', requireSpec, Bool.not_true, Bool.false_and,
+      Bool.false_eq_true, ↓reduceIte, DeclSkel.pur, htyne, hstart, h3, starPairs, List.map_nil, List.reverse_nil, hbp]
+    simp only [Val.truthy, Bool.false_eq_true, ↓reduceIte, hqual, htype]
+    rw [show TypeName.tnPre (tc s.idx) (TypeName.tnQuals u.specs) emptyTypeDecl =
+        TypeName.tnPre (tc s.idx) (TypeName.tnQuals u.specs) (chainVal [] emptyTypeDecl) from rfl, hfix (s := s3)]
+    simp only [ParamU.val, htn, hms]
+  | cons q r =>
+    rw [hst] at hF
+    have hs1' : SeesT env s1 (starsFlat (q :: r) ++ (k0, v0) :: rest) := by simpa [hst] using hs1
+    have hs1'' : SeesT env s1 (("TIMES", "*") :: (q ++ starsFlat r ++ (k0, v0) :: rest)) := by
+      simpa [starsFlat, List.append_assoc] using hs1'
+    obtain ⟨s2, h2, hs2, hi2, _⟩ := peekType_spec s1 _ hs1''
+    have hq : ∀ q' ∈ q :: r, ∀ t ∈ q', t.1 ∈ typeQualifier := by rw [← hst]; exact hwf.quals
+    have hs2' : SeesT env s2 (starsFlat (q :: r) ++ (k0, v0) :: rest) := by
+      simpa [starsFlat, List.append_assoc] using hs2
+    -- the look-ahead scan finds no name
+    obtain ⟨sc, hc, hsc, hic⟩ := scanStars_loop (q :: r) s2 ((k0, v0) :: rest) G hq
+      (by intro k v r' h; simp only [List.cons.injEq, Prod.mk.injEq] at h; rw [← h.1.1]
+          rcases hk0 with rfl | rfl <;> exact ⟨by decide, by decide⟩)
+      hs2' (by omega)
+    obtain ⟨sd, hd, hsd, _, hid, _⟩ := peek_spec sc k0 v0 _ hsc
+    have hscan : run (G + 1) .scanDeclaratorNameInfo s2 = .ok (none, false) sd := by
+      show pScanDeclaratorNameInfo (run G) s2 = _
+      rcases hk0 with rfl | rfl <;> simp [pScanDeclaratorNameInfo, DeclSkel.bnd, hc, hd, DeclSkel.pur]
+    obtain ⟨s4, h4, hs4, hi4⟩ := reset_to s2 sd _ _ hs2' hsd (by omega)
+    obtain ⟨s5, h5, hs5, hi5⟩ := TypeName.abstractStars_end (q :: r) hq s4 k0 v0 rest hk0 hs4 (G + 1) (by omega)
+    refine ⟨s5, ?_, hs5, by simp only [ParamU.ntoks, hst]; omega⟩
+    have hstart : startsDeclarator false s1 = .ok true s2 := by
+      simp only [startsDeclarator, DeclSkel.bnd, h2, List.head?_cons, Option.map_some, DeclSkel.pur]
+      rfl
+    have e4 : s4.idx = s.idx + u.specs.length := by omega
+    rw [e4] at h5
+    have hms : ((starPairs (s.idx + u.specs.length) (q :: r)).map pairM).reverse = u.ms s.idx := by simp [ParamU.ms, hst]
+    rw [hms] at h5
+    have hne' : u.ms s.idx ≠ [] := by rw [← hms]; simp [starPairs]
+    obtain ⟨m, ms', hmm⟩ := List.exists_cons_of_ne_nil hne'
+    have hany : run (G + 2) (.anyDeclarator true true) s2 = .ok (chainVal (u.ms s.idx) emptyTypeDecl, false) s5 := by
+      show pAnyDeclarator (run (G + 1)) true true s2 = _
+      have hreset : reset s2.idx sd = .ok () s4 := h4
+      rw [hmm] at h5
+      simp only [pAnyDeclarator, DeclSkel.bnd, mark, DeclSkel.pur, hscan, hreset, Option.isNone_none, Bool.true_or, ↓reduceIte,
+        Bool.not_true, Bool.false_eq_true, h5, hmm]
+    have hbp := buildParam_abs (foldSpec s.idx {} u.specs) p0 names htype hlast (chainVal (u.ms s.idx) emptyTypeDecl) (tc s.idx) s5 _ hs5
+    have htru : (chainVal (u.ms s.idx) emptyTypeDecl).truthy = true := by
+      rw [hmm]; exact TypeName.wrap_truthy m _
+    show pParameterDeclaration (run (G + 2)) s = _
+    simp only [pParameterDeclaration, pDeclSpecs, DeclSkel.bnd, h1', requireSpec, Bool.not_true, Bool.false_and,
+      Bool.false_eq_true, ↓reduceIte, DeclSkel.pur, htyne, hstart, hany]
+    rw [hbp]
+    simp only [htru, ↓reduceIte, hqual, htype, ParamU.val, htn]
+    exact hfix s5
+
+/-! ## a parameter: named or unnamed -/
+
+inductive PItem where
+  | named (p : Param)
+  | unnamed (u : ParamU)
+
+namespace PItem
+def flat : PItem → List Tk
+  | .named p => p.flat
+  | .unnamed u => u.flat
+def ntoks : PItem → Nat
+  | .named p => p.ntoks
+  | .unnamed u => u.ntoks
+def fuel : PItem → Nat
+  | .named p => p.fuel
+  | .unnamed u => u.fuel
+/-- the `Decl` of a named parameter, the `Typename` of an unnamed one -/
+def val (n : Nat) : PItem → Val
+  | .named p => p.val n
+  | .unnamed u => u.val n
+/-- the coordinate of the parameter's node -/
+def coord (n : Nat) : PItem → Option Coord
+  | .named p => (p.di n).coord
+  | .unnamed _ => tc n
+/-- the name a function definition registers in its body's scope -/
+def name : PItem → Option String
+  | .named p => some (dName p.d)
+  | .unnamed _ => none
+end PItem
+
+def WFPItem (ty : String → Bool) : PItem → Prop
+  | .named p => WFParam p
+  | .unnamed u => WFParamU ty u
+
+theorem PItem.flat_length (p : PItem) : p.flat.length = p.ntoks := by
+  cases p with
+  | named p => exact p.flat_length
+  | unnamed u => simp [PItem.flat, PItem.ntoks, ParamU.flat, ParamU.ntoks, DeclSkel.starsFlat_length]
+
+/-- **`_parse_parameter_declaration`** -/
+theorem pitem_ok (p : PItem) (hwf : WFPItem env.ty p) (s : PState) (stop : Tk) (rest : List Tk) (hstop : EndsParam stop.1)
+    (hs : SeesT env s (p.flat ++ stop :: rest)) (F : Nat) (hF : p.fuel ≤ F) :
+    ∃ s', run F .parameterDeclaration s = .ok (p.val s.idx) s' ∧ SeesT env s' (stop :: rest) ∧ s'.idx = s.idx + p.ntoks := by
+  cases p with
+  | named p => exact param_ok p hwf s stop rest hstop hs F hF
+  | unnamed u => exact paramU_ok u hwf s stop rest hstop hs F hF
+
 /-! ## the list -/
 
-def paramsRestFlat : List Param → List Tk
+def paramsRestFlat : List PItem → List Tk
   | [] => []
   | p :: r => ("COMMA", ",") :: (p.flat ++ paramsRestFlat r)
-def paramsRestNtoks : List Param → Nat
+def paramsRestNtoks : List PItem → Nat
   | [] => 0
   | p :: r => 1 + p.ntoks + paramsRestNtoks r
-def paramsRestFuel : List Param → Nat
+def paramsRestFuel : List PItem → Nat
   | [] => 1
   | p :: r => max p.fuel (paramsRestFuel r) + 1
-def paramsRestVals : Nat → List Param → List Val
+def paramsRestVals : Nat → List PItem → List Val
   | _, [] => []
   | n, p :: r => p.val (n + 1) :: paramsRestVals (n + 1 + p.ntoks) r
 
-theorem paramsRest_head (ps : List Param) (rest : List Tk) :
+theorem paramsRest_head (ps : List PItem) (rest : List Tk) :
     ∃ k v r, paramsRestFlat ps ++ ("RPAREN", ")") :: rest = (k, v) :: r ∧ EndsParam k := by
   cases ps with
   | nil => exact ⟨_, _, _, rfl, .inr rfl⟩
   | cons p r => exact ⟨_, _, _, rfl, .inl rfl⟩
 
-theorem param_head {p : Param} (hwf : WFParam p) : ∃ t r, p.flat = t :: r ∧ t.1 ∈ declStart ∧ t.1 ≠ "ELLIPSIS" ∧ t.1 ≠ "RPAREN" := by
+theorem param_head0 {p : Param} (hwf : WFParam p) : ∃ t r, p.flat = t :: r ∧ t.1 ∈ declStart ∧ t.1 ≠ "ELLIPSIS" ∧ t.1 ≠ "RPAREN" := by
   cases hsp : p.specs with
   | nil => exact absurd hsp (sawAfter_ne_nil hwf.sawType)
   | cons t r =>
@@ -131,9 +390,31 @@ theorem param_head {p : Param} (hwf : WFParam p) : ∃ t r, p.flat = t :: r ∧ 
     · revert h; generalize t.1 = k; revert k; decide
     · rw [h.1]; decide
 
+theorem paramU_head {ty : String → Bool} {u : ParamU} (hwf : WFParamU ty u) :
+    ∃ t r, u.flat = t :: r ∧ t.1 ∈ declStart ∧ t.1 ≠ "ELLIPSIS" ∧ t.1 ≠ "RPAREN" := by
+  cases hsp : u.specs with
+  | nil => exact absurd hsp (sawAfter_ne_nil hwf.sawType)
+  | cons t r =>
+    have h := hwf.specToks
+    rw [hsp] at h
+    obtain ⟨hk, _⟩ := h
+    refine ⟨t, r ++ starsFlat u.stars, by simp [ParamU.flat, hsp], ?_⟩
+    rcases hk with h | h | h | h | h
+    · revert h; generalize t.1 = k; revert k; decide
+    · revert h; generalize t.1 = k; revert k; decide
+    · revert h; generalize t.1 = k; revert k; decide
+    · revert h; generalize t.1 = k; revert k; decide
+    · rw [h.1]; decide
+
+theorem pitem_head {ty : String → Bool} {p : PItem} (hwf : WFPItem ty p) :
+    ∃ t r, p.flat = t :: r ∧ t.1 ∈ declStart ∧ t.1 ≠ "ELLIPSIS" ∧ t.1 ≠ "RPAREN" := by
+  cases p with
+  | named p => exact param_head0 hwf
+  | unnamed u => exact paramU_head hwf
+
 /-- the `while` of `_parse_parameter_list` -/
-theorem params_loop : ∀ (ps : List Param) (acc : List Val) (s : PState) (rest : List Tk) (F : Nat),
-    (∀ p ∈ ps, WFParam p) → SeesT env s (paramsRestFlat ps ++ ("RPAREN", ")") :: rest) → paramsRestFuel ps ≤ F →
+theorem params_loop : ∀ (ps : List PItem) (acc : List Val) (s : PState) (rest : List Tk) (F : Nat),
+    (∀ p ∈ ps, WFPItem env.ty p) → SeesT env s (paramsRestFlat ps ++ ("RPAREN", ")") :: rest) → paramsRestFuel ps ≤ F →
     ∃ s', run F (.parameterListLoop acc) s = .ok (acc ++ paramsRestVals s.idx ps) s' ∧
       SeesT env s' (("RPAREN", ")") :: rest) ∧ s'.idx = s.idx + paramsRestNtoks ps
   | [], acc, s, rest, F, _, hs, hF => by
@@ -146,7 +427,7 @@ theorem params_loop : ∀ (ps : List Param) (acc : List Val) (s : PState) (rest 
   | p :: ps, acc, s, rest, F, hwf, hs, hF => by
     obtain ⟨G, rfl⟩ : ∃ G, F = G + 1 := ⟨F - 1, by simp only [paramsRestFuel] at hF; omega⟩
     simp only [paramsRestFuel] at hF
-    obtain ⟨t, r, hfl, _, hne, _⟩ := param_head (hwf p List.mem_cons_self)
+    obtain ⟨t, r, hfl, _, hne, _⟩ := pitem_head (hwf p List.mem_cons_self)
     have hs0 : SeesT env s (("COMMA", ",") :: ((t.1, t.2) :: (r ++ (paramsRestFlat ps ++ ("RPAREN", ")") :: rest)))) := by
       simpa [paramsRestFlat, hfl, List.append_assoc] using hs
     obtain ⟨s1, h1, hs1, hi1, _⟩ := peekType_spec s _ hs0
@@ -154,7 +435,7 @@ theorem params_loop : ∀ (ps : List Param) (acc : List Val) (s : PState) (rest 
     obtain ⟨s3, h3, hs3, _, hi3, _⟩ := advance_spec s2 "COMMA" "," _ hs2
     obtain ⟨k, v, r', hhd, hend⟩ := paramsRest_head ps rest
     have hs3' : SeesT env s3 (p.flat ++ (k, v) :: r') := by rw [← hhd]; simpa [hfl, List.append_assoc] using hs3
-    obtain ⟨s4, h4, hs4, hi4⟩ := param_ok p (hwf p List.mem_cons_self) s3 (k, v) r' hend hs3' G (by omega)
+    obtain ⟨s4, h4, hs4, hi4⟩ := pitem_ok p (hwf p List.mem_cons_self) s3 (k, v) r' hend hs3' G (by omega)
     rw [← hhd] at hs4
     obtain ⟨s5, h5, hs5, hi5⟩ := params_loop ps (acc ++ [p.val s3.idx]) s4 rest G
       (fun p' h' => hwf p' (List.mem_cons_of_mem _ h')) hs4 (by omega)
@@ -173,8 +454,8 @@ theorem params_loop : ∀ (ps : List Param) (acc : List Val) (s : PState) (rest 
 
 /-- a non-empty prototype parameter list -/
 structure PL where
-  first : Param
-  more : List Param
+  first : PItem
+  more : List PItem
 
 namespace PL
 def flat (l : PL) : List Tk := l.first.flat ++ paramsRestFlat l.more
@@ -183,13 +464,13 @@ def fuel (l : PL) : Nat := max l.first.fuel (paramsRestFuel l.more) + 2
 /-- the parameter `Decl`s in source order -/
 def decls (n : Nat) (l : PL) : List Val := l.first.val n :: paramsRestVals (n + l.first.ntoks) l.more
 /-- the `ParamList`; its coordinate is the first parameter's -/
-def val (n : Nat) (l : PL) : Val := PycModel.mk .ParamList (l.first.di n).coord [.list (l.decls n)]
-def names (l : PL) : List String := dName l.first.d :: l.more.map fun p => dName p.d
+def val (n : Nat) (l : PL) : Val := PycModel.mk .ParamList (l.first.coord n) [.list (l.decls n)]
+def names (l : PL) : List String := (l.first :: l.more).filterMap PItem.name
 end PL
 
-structure WFPL (l : PL) : Prop where
-  first : WFParam l.first
-  more : ∀ p ∈ l.more, WFParam p
+structure WFPL (ty : String → Bool) (l : PL) : Prop where
+  first : WFPItem ty l.first
+  more : ∀ p ∈ l.more, WFPItem ty p
 
 theorem Param.val_coord (p : Param) (n : Nat) (hsaw : sawAfter false p.specs = true) (s : PState) :
     coordOf (p.val n) s = .ok (p.di n).coord s := by
@@ -198,7 +479,19 @@ theorem Param.val_coord (p : Param) (n : Nat) (hsaw : sawAfter false p.specs = t
   | nil => exact absurd htn (typeNames_ne_nil _ _ false hsaw rfl)
   | cons p0 names => rfl
 
-theorem paramTypeList_ok (l : PL) (hwf : WFPL l) (s : PState) (rest : List Tk)
+theorem PItem.val_coord {ty : String → Bool} (p : PItem) (n : Nat) (hwf : WFPItem ty p) (s : PState) :
+    coordOf (p.val n) s = .ok (p.coord n) s := by
+  cases p with
+  | named p => exact Param.val_coord p n (show WFParam p from hwf).sawType s
+  | unnamed u =>
+    have hw : WFParamU ty u := hwf
+    show coordOf (u.val n) s = _
+    unfold ParamU.val
+    cases htn : typeNames n u.specs with
+    | nil => exact absurd htn (typeNames_ne_nil _ _ false hw.sawType rfl)
+    | cons p0 names => rfl
+
+theorem paramTypeList_ok (l : PL) (hwf : WFPL env.ty l) (s : PState) (rest : List Tk)
     (hs : SeesT env s (l.flat ++ ("RPAREN", ")") :: rest)) (F : Nat) (hF : l.fuel ≤ F) :
     ∃ s', run F .parameterTypeList s = .ok (l.val s.idx) s' ∧ SeesT env s' (("RPAREN", ")") :: rest) ∧
       s'.idx = s.idx + l.ntoks := by
@@ -206,81 +499,101 @@ theorem paramTypeList_ok (l : PL) (hwf : WFPL l) (s : PState) (rest : List Tk)
   simp only [PL.fuel] at hF
   obtain ⟨k, v, r', hhd, hend⟩ := paramsRest_head l.more rest
   have hs0 : SeesT env s (l.first.flat ++ (k, v) :: r') := by rw [← hhd]; simpa [PL.flat, List.append_assoc] using hs
-  obtain ⟨s1, h1, hs1, hi1⟩ := param_ok l.first hwf.first s (k, v) r' hend hs0 G (by omega)
+  obtain ⟨s1, h1, hs1, hi1⟩ := pitem_ok l.first hwf.first s (k, v) r' hend hs0 G (by omega)
   rw [← hhd] at hs1
   obtain ⟨s2, h2, hs2, hi2⟩ := params_loop l.more [l.first.val s.idx] s1 rest G hwf.more hs1 (by omega)
   obtain ⟨s3, h3, hs3, hi3, _⟩ := peekType_spec s2 _ hs2
   refine ⟨s3, ?_, hs3, by simp only [PL.ntoks]; omega⟩
   have e1 : s1.idx = s.idx + l.first.ntoks := hi1
   rw [e1] at h2
-  have hco := Param.val_coord l.first s.idx hwf.first.sawType
+  have hco := PItem.val_coord l.first s.idx hwf.first
   show pParameterTypeList (run G) s = _
   simp [pParameterTypeList, DeclSkel.bnd, h1, hco, h2, andM, peekIs, h3, DeclSkel.pur, PL.val, PL.decls]
 
 /-- the names `_parse_function_decl` registers when a `{` follows: every parameter's -/
-theorem registerParams_ok : ∀ (ps : List Param) (ns : List Nat), ps.length = ns.length →
-    (∀ p ∈ ps, sawAfter false p.specs = true) → (∀ p ∈ ps, env.ty (dName p.d) = false) →
+theorem registerParams_ok : ∀ (ps : List PItem) (ns : List Nat), ps.length = ns.length →
+    (∀ p ∈ ps, WFPItem env.ty p) → (∀ p ∈ ps, ∀ x, p.name = some x → env.ty x = false) →
     ∀ (s : PState) (toks : List Tk), SeesT env s toks →
     ∃ s', registerParams ((ps.zip ns).map fun pn => pn.1.val pn.2) s = .ok () s' ∧ SeesT env s' toks ∧ s'.idx = s.idx
   | [], _, _, _, _, s, toks, hs => ⟨s, rfl, hs, rfl⟩
   | p :: ps, [], h, _, _, _, _, _ => by simp at h
-  | p :: ps, n :: ns, hlen, hsaw, hty, s, toks, hs => by
+  | .unnamed u :: ps, n :: ns, hlen, hwf, hty, s, toks, hs => by
+    have hw : WFParamU env.ty u := hwf _ List.mem_cons_self
+    obtain ⟨s2, h2, hs2, hi2⟩ := registerParams_ok ps ns (by simpa using hlen)
+      (fun q hq => hwf q (List.mem_cons_of_mem _ hq)) (fun q hq => hty q (List.mem_cons_of_mem _ hq)) s toks hs
+    refine ⟨s2, ?_, hs2, hi2⟩
+    have hname : (u.val n).getAttr "name" = some .none := by
+      unfold ParamU.val
+      cases htn : typeNames n u.specs with
+      | nil => exact absurd htn (typeNames_ne_nil _ _ false hw.sawType rfl)
+      | cons p0 names => rfl
+    have hcls : (u.val n).isCls .EllipsisParam = false := by
+      unfold ParamU.val
+      cases htn : typeNames n u.specs with
+      | nil => exact absurd htn (typeNames_ne_nil _ _ false hw.sawType rfl)
+      | cons p0 names => rfl
+    simp only [List.zip_cons_cons, List.map_cons, PItem.val, registerParams, hcls, Bool.false_eq_true, ↓reduceIte, hname]
+    exact h2
+  | .named p :: ps, n :: ns, hlen, hwf, hty, s, toks, hs => by
+    have hw : WFParam p := hwf _ List.mem_cons_self
+    have hsaw := hw.sawType
+    have htyp : env.ty (dName p.d) = false := hty _ List.mem_cons_self _ rfl
     have hname : (p.val n).getAttr "name" = some (.str (dName p.d)) := by
       unfold Param.val
       cases htn : typeNames n p.specs with
-      | nil => exact absurd htn (typeNames_ne_nil _ _ false (hsaw p List.mem_cons_self) rfl)
+      | nil => exact absurd htn (typeNames_ne_nil _ _ false hsaw rfl)
       | cons p0 names => rfl
     have hcls : (p.val n).isCls .EllipsisParam = false := by
       unfold Param.val
       cases htn : typeNames n p.specs with
-      | nil => exact absurd htn (typeNames_ne_nil _ _ false (hsaw p List.mem_cons_self) rfl)
+      | nil => exact absurd htn (typeNames_ne_nil _ _ false hsaw rfl)
       | cons p0 names => rfl
     have hco : ∀ st, valCoord (p.val n) "param.coord" st = .ok (p.di n).coord st := by
       intro st
       unfold Param.val
       cases htn : typeNames n p.specs with
-      | nil => exact absurd htn (typeNames_ne_nil _ _ false (hsaw p List.mem_cons_self) rfl)
+      | nil => exact absurd htn (typeNames_ne_nil _ _ false hsaw rfl)
       | cons p0 names => rfl
     by_cases hem : (dName p.d).isEmpty = true
     · obtain ⟨s2, h2, hs2, hi2⟩ := registerParams_ok ps ns (by simpa using hlen)
-        (fun q hq => hsaw q (List.mem_cons_of_mem _ hq)) (fun q hq => hty q (List.mem_cons_of_mem _ hq)) s toks hs
+        (fun q hq => hwf q (List.mem_cons_of_mem _ hq)) (fun q hq => hty q (List.mem_cons_of_mem _ hq)) s toks hs
       refine ⟨s2, ?_, hs2, hi2⟩
-      simp only [List.zip_cons_cons, List.map_cons, registerParams, hcls, Bool.false_eq_true, ↓reduceIte, hname, hem,
+      simp only [List.zip_cons_cons, List.map_cons, PItem.val, registerParams, hcls, Bool.false_eq_true, ↓reduceIte, hname, hem,
         Bool.not_true, DeclSkel.bnd, DeclSkel.pur]
       exact h2
-    · obtain ⟨s1, h1, hs1, hi1, _⟩ := addIdentifier_spec s toks (dName p.d) (p.di n).coord hs (hty p List.mem_cons_self)
+    · obtain ⟨s1, h1, hs1, hi1, _⟩ := addIdentifier_spec s toks (dName p.d) (p.di n).coord hs htyp
       obtain ⟨s2, h2, hs2, hi2⟩ := registerParams_ok ps ns (by simpa using hlen)
-        (fun q hq => hsaw q (List.mem_cons_of_mem _ hq)) (fun q hq => hty q (List.mem_cons_of_mem _ hq)) s1 toks hs1
+        (fun q hq => hwf q (List.mem_cons_of_mem _ hq)) (fun q hq => hty q (List.mem_cons_of_mem _ hq)) s1 toks hs1
       refine ⟨s2, ?_, hs2, by omega⟩
       have hem' : (dName p.d).isEmpty = false := by simpa using hem
-      simp only [List.zip_cons_cons, List.map_cons, registerParams, hcls, Bool.false_eq_true, ↓reduceIte, hname, hem',
+      simp only [List.zip_cons_cons, List.map_cons, PItem.val, registerParams, hcls, Bool.false_eq_true, ↓reduceIte, hname, hem',
         Bool.not_false, DeclSkel.bnd, hco, h1]
       exact h2
 
 /-- the positions of the parameters of a list starting at `n` -/
-def restPos : Nat → List Param → List Nat
+def restPos : Nat → List PItem → List Nat
   | _, [] => []
   | n, p :: r => (n + 1) :: restPos (n + 1 + p.ntoks) r
 
-theorem restPos_length : ∀ (n : Nat) (ps : List Param), (restPos n ps).length = ps.length
+theorem restPos_length : ∀ (n : Nat) (ps : List PItem), (restPos n ps).length = ps.length
   | _, [] => rfl
   | n, p :: r => by simp [restPos, restPos_length _ r]
 
-theorem paramsRestVals_zip : ∀ (n : Nat) (ps : List Param),
+theorem paramsRestVals_zip : ∀ (n : Nat) (ps : List PItem),
     paramsRestVals n ps = (ps.zip (restPos n ps)).map fun pn => pn.1.val pn.2
   | _, [] => rfl
   | n, p :: r => by simp [paramsRestVals, restPos, paramsRestVals_zip _ r]
 
 /-- **`_parse_function_decl`** on `( parameters )` followed by the `{` of a function body: the
 `FuncDecl` modifier with the `ParamList`, every parameter name registered in the body's scope -/
-theorem functionDeclP_ok (l : PL) (hwf : WFPL l) (hty : ∀ x ∈ l.names, env.ty x = false) (base : Val)
+theorem functionDeclP_ok (l : PL) (hwf : WFPL env.ty l) (hty : ∀ x ∈ l.names, env.ty x = false) (base : Val)
     (hbase : base.isNode = true) (s : PState) (rest : List Tk)
     (hs : SeesT env s (("LPAREN", "(") :: (l.flat ++ ("RPAREN", ")") :: ("LBRACE", "{") :: rest))) (G : Nat)
     (hF : l.fuel + 1 ≤ G) :
     ∃ s', run (G + 1) (.functionDecl base) s =
         .ok (chainVal [.fn (X.coordOfVal base) (l.val (s.idx + 1))] .none) s' ∧
       SeesT env s' (("LBRACE", "{") :: rest) ∧ s'.idx = s.idx + l.ntoks + 2 := by
-  obtain ⟨t, r, hfl, hds, _, hnr⟩ := param_head hwf.first
+  obtain ⟨t, r, hfl, hds, _, hnr⟩ := pitem_head hwf.first
   obtain ⟨s1, h1, hs1, hi1⟩ := expect_same s "LPAREN" "(" _ hs
   have hs1' : SeesT env s1 ((t.1, t.2) :: (r ++ (paramsRestFlat l.more ++ ("RPAREN", ")") :: ("LBRACE", "{") :: rest))) := by
     simpa [PL.flat, hfl, List.append_assoc] using hs1
@@ -301,11 +614,8 @@ theorem functionDeclP_ok (l : PL) (hwf : WFPL l) (hty : ∀ x ∈ l.names, env.t
     simp [PL.decls, paramsRestVals_zip]
   obtain ⟨s7, h7, hs7, hi7⟩ := registerParams_ok (l.first :: l.more) ((s.idx + 1) :: restPos (s.idx + 1 + l.first.ntoks) l.more)
     (by simp [restPos_length])
-    (by intro p hp; simp only [List.mem_cons] at hp; rcases hp with rfl | hp; exact hwf.first.sawType; exact (hwf.more p hp).sawType)
-    (by intro p hp; apply hty; simp only [List.mem_cons] at hp
-        rcases hp with rfl | hp
-        · exact List.mem_cons_self
-        · exact List.mem_cons_of_mem _ (List.mem_map_of_mem hp))
+    (by intro p hp; simp only [List.mem_cons] at hp; rcases hp with rfl | hp; exact hwf.first; exact hwf.more p hp)
+    (by intro p hp x hx; apply hty; simp only [PL.names, List.mem_filterMap]; exact ⟨p, hp, hx⟩)
     s6 _ hs6
   rw [← hdecls] at h7
   refine ⟨s7, ?_, hs7, by omega⟩
@@ -425,8 +735,8 @@ def names : PLV → List String
   | .void => []
 end PLV
 
-def WFPLV : PLV → Prop
-  | .named l => WFPL l
+def WFPLV (ty : String → Bool) : PLV → Prop
+  | .named l => WFPL ty l
   | .void => True
 
 theorem PLV.flat_length (pv : PLV) (h : ∀ l, pv = .named l → l.flat.length = l.ntoks) : pv.flat.length = pv.ntoks := by
@@ -435,7 +745,7 @@ theorem PLV.flat_length (pv : PLV) (h : ∀ l, pv = .named l → l.flat.length =
   | void => rfl
 
 /-- **`_parse_function_decl`** on either form of parameter list in front of a function body -/
-theorem functionDeclPV_ok (pv : PLV) (hwf : WFPLV pv) (hty : ∀ x ∈ pv.names, env.ty x = false) (base : Val)
+theorem functionDeclPV_ok (pv : PLV) (hwf : WFPLV env.ty pv) (hty : ∀ x ∈ pv.names, env.ty x = false) (base : Val)
     (hbase : base.isNode = true) (s : PState) (rest : List Tk)
     (hs : SeesT env s (("LPAREN", "(") :: (pv.flat ++ ("RPAREN", ")") :: ("LBRACE", "{") :: rest))) (G : Nat)
     (hF : pv.fuel + 1 ≤ G) :
@@ -463,7 +773,7 @@ def di (n : Nat) (f : FD) : DI := { ms := [.fn (tc n) (f.params.val (n + 2))], x
 end FD
 
 /-- **`_parse_declarator`** on `name ( parameters )` in front of a function body -/
-theorem fdeclarator_ok (f : FD) (hwf : WFPLV f.params) (hty : ∀ x ∈ f.params.names, env.ty x = false) (s : PState) (rest : List Tk)
+theorem fdeclarator_ok (f : FD) (hwf : WFPLV env.ty f.params) (hty : ∀ x ∈ f.params.names, env.ty x = false) (s : PState) (rest : List Tk)
     (hs : SeesT env s (f.flat ++ ("LBRACE", "{") :: rest)) (F : Nat) (hF : f.fuel ≤ F) :
     ∃ s', run F (.declaratorKind .id true) s = .ok (f.di s.idx).raw s' ∧ SeesT env s' (("LBRACE", "{") :: rest) ∧
       s'.idx = s.idx + f.ntoks := by
@@ -518,7 +828,7 @@ theorem fdeclarator_ok (f : FD) (hwf : WFPLV f.params) (hty : ∀ x ∈ f.params
 
 /-- **`_parse_function_decl`** on `( parameters )` followed by anything but `{`: the same `FuncDecl`
 modifier, and *no* parameter name is registered (the parameters of a prototype have prototype scope) -/
-theorem functionDeclP_proto (l : PL) (hwf : WFPL l) (base : Val)
+theorem functionDeclP_proto (l : PL) (hwf : WFPL env.ty l) (base : Val)
     (hbase : base.isNode = true) (s : PState) (stop : Tk) (rest : List Tk) (hstop : stop.1 ≠ "LBRACE")
     (hs : SeesT env s (("LPAREN", "(") :: (l.flat ++ ("RPAREN", ")") :: stop :: rest))) (G : Nat)
     (hF : l.fuel + 1 ≤ G) :
@@ -526,7 +836,7 @@ theorem functionDeclP_proto (l : PL) (hwf : WFPL l) (base : Val)
         .ok (chainVal [.fn (X.coordOfVal base) (l.val (s.idx + 1))] .none) s' ∧
       SeesT env s' (stop :: rest) ∧ s'.idx = s.idx + l.ntoks + 2 := by
   obtain ⟨k0, v0⟩ := stop
-  obtain ⟨t, r, hfl, hds, _, hnr⟩ := param_head hwf.first
+  obtain ⟨t, r, hfl, hds, _, hnr⟩ := pitem_head hwf.first
   obtain ⟨s1, h1, hs1, hi1⟩ := expect_same s "LPAREN" "(" _ hs
   have hs1' : SeesT env s1 ((t.1, t.2) :: (r ++ (paramsRestFlat l.more ++ ("RPAREN", ")") :: (k0, v0) :: rest))) := by
     simpa [PL.flat, hfl, List.append_assoc] using hs1
@@ -587,7 +897,7 @@ theorem functionDeclV_proto (base : Val) (hbase : base.isNode = true) (s : PStat
     List.head?_cons, Option.map_some, hin, DeclSkel.pur, hptl, h7, hco, h8, hnb]
   rfl
 
-theorem functionDeclPV_proto (pv : PLV) (hwf : WFPLV pv) (base : Val)
+theorem functionDeclPV_proto (pv : PLV) (hwf : WFPLV env.ty pv) (base : Val)
     (hbase : base.isNode = true) (s : PState) (stop : Tk) (rest : List Tk) (hstop : stop.1 ≠ "LBRACE")
     (hs : SeesT env s (("LPAREN", "(") :: (pv.flat ++ ("RPAREN", ")") :: stop :: rest))) (G : Nat)
     (hF : pv.fuel + 1 ≤ G) :
@@ -605,7 +915,7 @@ theorem functionDeclPV_proto (pv : PLV) (hwf : WFPLV pv) (base : Val)
 def EndsProto (k : String) : Prop := k = "SEMI" ∨ k = "COMMA"
 
 /-- **`_parse_declarator`** on `name ( parameters )` in a declaration (a prototype) -/
-theorem fdeclarator_proto (f : FD) (hwf : WFPLV f.params) (s : PState) (stop : Tk) (rest : List Tk)
+theorem fdeclarator_proto (f : FD) (hwf : WFPLV env.ty f.params) (s : PState) (stop : Tk) (rest : List Tk)
     (hstop : EndsProto stop.1)
     (hs : SeesT env s (f.flat ++ stop :: rest)) (F : Nat) (hF : f.fuel ≤ F) :
     ∃ s', run F (.declaratorKind .id true) s = .ok (f.di s.idx).raw s' ∧ SeesT env s' (stop :: rest) ∧
